@@ -280,7 +280,7 @@ pub fn gen_ops(rng: &mut Rng, wl: &Workload, allow_fmt_fail: bool) -> Vec<Op> {
     // buffers only show up when a single call carries that much)
     // a long-lived stream: thousands of tiny calls on the same object (state that accumulates over
     // calls, N-th-occurrence effects).  The executors check their invariants with a stride then.
-    let long_lived = n > 600 && rng.chance(1, 5);
+    let long_lived = n > 600 && n <= 100_000 && rng.chance(1, 5);
     let size_mode = if long_lived { 0 } else if n > 4096 { 4 } else { rng.below(4) };
     let op_cap = if long_lived { 80_000 } else { 200 };
     let mut ops = Vec::new();
